@@ -186,3 +186,60 @@ def wellTypedMB (P : Program) : Bool :=
   P.top.binds.all fun b => !b.split
 
 end Martian.ResolverStatic
+
+namespace Martian.ResolverStatic
+open Martian.Dataflow
+
+/-! ## programs with map calls of stages (array / typed-map mode; sizes checked by `staticProgramOk`) -/
+
+def mappedOkGB (st : StructTable) (n : Nat) (P : Program) (sT cT : String → Ty) (c : Call) (isMap : Bool) : Bool :=
+  c.mapped && c.disabled.isNone && isStageB P c.callee &&
+  (c.binds.any fun b => b.split) &&
+  decide ((c.binds.map (·.param)).Nodup) &&
+  (c.binds.all fun b => !b.split || (P.insOf c.callee).any fun p => p.name == b.param) &&
+  (!isMap || (P.insOf c.callee).all fun p =>
+    match c.binds.find? (fun b => b.param == p.name) with
+    | some b => !b.split || p.ty.mapDim == 0
+    | none => true) &&
+  (P.insOf c.callee).all fun p =>
+    match c.binds.find? (fun b => b.param == p.name) with
+    | some b => hasTyB st n sT cT (if b.split then liftSplitTy isMap p.ty else p.ty) b.exp
+    | none => true
+
+/-- the type later bindings see `CALL` at, if the call is well typed -/
+def callOkGB (st : StructTable) (n : Nat) (P : Program) (sT cT : String → Ty) (c : Call) : Option Ty :=
+  if callOkB st n P.insOf sT cT c && c.binds.all (fun b => !b.split) then some ⟨c.callee, 0, 0⟩
+  else if mappedOkGB st n P sT cT c false then some ⟨c.callee, 0, 1⟩
+  else if mappedOkGB st n P sT cT c true then some ⟨c.callee, 1, 0⟩
+  else none
+
+def callsOkGB (st : StructTable) (n : Nat) (P : Program) (sT : String → Ty) :
+    List (String × Ty) → List Call → Option (List (String × Ty))
+  | L, [] => some L
+  | L, c :: cs =>
+    match callOkGB st n P sT (callTyOfB L) c with
+    | some ty => callsOkGB st n P sT (L ++ [(c.id, ty)]) cs
+    | none => none
+
+def pipelineOkGB (st : StructTable) (n : Nat) (P : Program) (pins outs : List Param)
+    (calls : List Call) (ret : List (String × Exp)) : Bool :=
+  match callsOkGB st n P (selfTyOfB pins) [] calls with
+  | some L =>
+    outs.all fun p =>
+      match ret.lookup p.name with
+      | some e => hasTyB st n (selfTyOfB pins) (callTyOfB L) p.ty e
+      | none => true
+  | none => false
+
+/-- decidable hypotheses of `resolver_refines_den_mapstatic_checked` (with `staticProgramOk`, `acyclicB`) -/
+def wellTypedGB (P : Program) : Bool :=
+  structsOkB P.table &&
+  (P.callables.all fun e => P.table.lookup e.1 == some e.2.outs) &&
+  (P.callables.all fun e =>
+    match e.2 with
+    | .stage _ _ => true
+    | .pipeline pins outs calls ret => pipelineOkGB P.table P.table.length P pins outs calls ret) &&
+  callOkB P.table P.table.length P.insOf (selfTyOfB []) (callTyOfB []) P.top &&
+  P.top.binds.all fun b => !b.split
+
+end Martian.ResolverStatic
